@@ -3,7 +3,7 @@
    nat, positive, N and Z stay the extracted inductive datatypes; no Extract Constant. *)
 Require Extraction.
 Require Import ExtrOcamlBasic.
-From WV Require Import Generated.Consts Model.Base Model.Signals Model.Bits Model.Leb128 Model.WaveMem Model.VcdBody Model.FstLoad Model.Hierarchy Model.Detect Model.Slice Model.Loader Model.VcdHeader Model.Py Model.Ghw Model.GhwAlias Model.Serde Generated.SerdeSchema Model.FstHier.
+From WV Require Import Generated.Consts Model.Base Model.Signals Model.Bits Model.Leb128 Model.WaveMem Model.VcdBody Model.FstLoad Model.Hierarchy Model.Detect Model.Slice Model.Loader Model.VcdHeader Model.Py Model.Ghw Model.GhwAlias Model.Serde Generated.SerdeSchema Model.FstHier Model.GhwHier Model.GhwFile.
 Extraction Language OCaml.
 Cd "extract/gen".
-Separate Extraction Generated.Consts Model.Base Model.Signals Model.Bits Model.Leb128 Model.WaveMem Model.VcdBody Model.FstLoad Model.Hierarchy Model.Detect Model.Slice Model.Loader Model.VcdHeader Model.Py Model.Ghw Model.GhwAlias Model.Serde Generated.SerdeSchema Model.FstHier BinNat.N.add BinNat.N.mul BinNat.N.div_eucl BinNat.N.of_nat BinNat.N.to_nat.
+Separate Extraction Generated.Consts Model.Base Model.Signals Model.Bits Model.Leb128 Model.WaveMem Model.VcdBody Model.FstLoad Model.Hierarchy Model.Detect Model.Slice Model.Loader Model.VcdHeader Model.Py Model.Ghw Model.GhwAlias Model.Serde Generated.SerdeSchema Model.FstHier Model.GhwHier Model.GhwFile BinNat.N.add BinNat.N.mul BinNat.N.div_eucl BinNat.N.of_nat BinNat.N.to_nat.
